@@ -35,6 +35,16 @@ def fieldOf (ans key : String) : String :=
   | some f => (f.drop (key.length + 1)).toString
   | none => ""
 
+/-- the property-relevant digest of an output: every decimal / upper-case hexadecimal token in order
+    (line numbers, columns, register, flag and memory values, addresses).  Two outputs with the same
+    digest differ in wording only. -/
+def digest (out : String) : List String :=
+  let toks := out.split (fun c => c == ' ' || c == '\t' || c == '\n' || c == ':' || c == ',' || c == '>')
+  toks.toList.filterMap fun t =>
+    let s := t.toString
+    let body := if s.startsWith "0x" then (s.drop 2).toString else s
+    if !body.isEmpty && body.toList.all (fun c => c.isDigit || ('A' ≤ c && c ≤ 'F')) then some s else none
+
 def handleL4 (req ans : String) : Verdict :=
   match req.splitOn " | " with
   | [head, srcE, inE] =>
@@ -67,7 +77,11 @@ def handleL4 (req ans : String) : Verdict :=
       -- at this level the model's run (assembler + loader + run loop + services + prompt, each part proved
       -- against its property in Props.C08-C20) IS the reference: a different trace, final state or output
       -- is a violation with this request as the failing input
-      { model := if ok then ans else model, specOk := specOk && ok,
+      -- a difference in wording only (same exit status, trace, final state and the same numbers in the same
+      -- order in the output) is a broken tie, not a failing input
+      let sameDigest := fieldOf ans "exit" == fieldOf model "exit" && fieldOf ans "trace" == fieldOf model "trace"
+        && fieldOf ans "regs" == fieldOf model "regs" && fieldOf ans "mem" == fieldOf model "mem" && digest realOut == digest r.stdout
+      { model := if ok then ans else model, specOk := specOk && (ok || sameDigest),
         spec := if ok then "exit status 0/1, no 'Internal Error' in the output" else "reference run: " ++ model,
         nontrivial := !r.diag && r.trace.length > 1 }
     | _, _, _ => bad
